@@ -19,6 +19,20 @@
 // peers draining their sockets in small reads) so that several compressing writers of the
 // proxy are busy at once.
 //
+// About a fifth of the known packets carry 1-16 extra trailing bytes behind a well-formed
+// body (Gate's decoder reports them as left bytes and the packet is still relayed whole).
+//
+// A sixth of the sessions has a connection request to a SECOND backend pending for a
+// PRNG-chosen stretch of both streams: the second fake backend parks the request at the dial,
+// at the login (never answered) or right before JoinGame, reports that it is parked, and only
+// the monitor ends the stall - by cancelling the request (the player stays) or by releasing
+// it (the switch completes and the streams go on over the new backend). While the request is
+// merely pending the player is still in play on its server, so everything sent before the end
+// of the stall must be relayed like at any other time; what the proxy itself sends around a
+// completed switch lies between two markers and is not judged here (C16). For 1.20.2+
+// clients the stall is never placed behind the new backend's login success, because Gate
+// (like Velocity) gives the old backend up at that point.
+//
 // Oracle: per direction, the list of packets with those ids received on the other side in
 // the play state equals the list sent, byte for byte, in order (no loss, duplication,
 // change, reorder). The signature names the difference and, for a known type, the type of
@@ -27,13 +41,16 @@ package c15
 
 import (
 	"bytes"
+	"context"
 	"crypto/sha1"
 	"encoding/binary"
 	"encoding/hex"
 	"fmt"
 	"math/rand"
+	"strings"
 	"sync"
 	"testing"
+	"time"
 
 	jconfig "go.minekube.com/gate/pkg/edition/java/config"
 	"go.minekube.com/gate/pkg/edition/java/proto/state"
@@ -59,13 +76,18 @@ type item struct {
 	p        []byte
 	kind     string   // "unknown-id" or "known:<type>"
 	flavours []string // unusual-but-legal content classes of a known packet
+	phase    string   // "" plain play; or what was going on while it was sent (switch sessions)
 }
 
 // genStream builds one direction's stream: payloads with ids unknown to Gate (boundary-biased
 // sizes, random / highly compressible contents) interleaved with hand-built packets of the
 // known types the proxy relays as received (known_test.go). heavy > 0 adds that many
 // 48..400 KiB hardly compressible payloads (several compressing writers busy at once).
-func genStream(rng *rand.Rand, dir proto.Direction, pv proto.Protocol, ids []int, known []knownGen, knownPct int, n int, thresholds []int, big, heavy int, rejected func(kind string, err error)) []item {
+//
+// seqBase is added to the sequence numbers the packets carry (streams sent in several parts).
+// About a fifth of the known packets whose decoder stops at the end of the documented body
+// get 1..16 extra trailing bytes behind it (see known_test.go: trailing bytes).
+func genStream(rng *rand.Rand, dir proto.Direction, pv proto.Protocol, ids []int, known []knownGen, knownPct int, seqBase, n int, thresholds []int, big, heavy int, rejected func(kind string, err error)) []item {
 	sizes := []int{0, 1, 2, 3, 8, 126, 127, 128, 129, 254, 255, 256, 257, 16383, 16384, 32767}
 	for _, t := range thresholds {
 		if t > 1 {
@@ -78,9 +100,16 @@ func genStream(rng *rand.Rand, dir proto.Direction, pv proto.Protocol, ids []int
 	for i := 0; i < n; i++ {
 		if len(known) > 0 && rng.Intn(100) < knownPct {
 			g := known[rng.Intn(len(known))]
-			body, fl := g.build(rng, pv, i)
+			body, fl := g.build(rng, pv, seqBase+i)
 			p := append(idBytes(g.id), body...)
-			if err := decodableByGate(dir, pv, p); err != nil {
+			trailing := !g.readsToEnd && rng.Intn(5) == 0
+			if trailing {
+				extra := make([]byte, 1+rng.Intn(16))
+				rng.Read(extra)
+				p = append(p, extra...)
+				fl = append(fl, "trailing-bytes")
+			}
+			if err := decodableByGate(dir, pv, p, trailing); err != nil {
 				rejected(g.name, err)
 			} else {
 				if g.name == "BundleDelimiter" {
@@ -120,7 +149,7 @@ func genStream(rng *rand.Rand, dir proto.Direction, pv proto.Protocol, ids []int
 		}
 		if k >= 8 {
 			binary.BigEndian.PutUint32(body[0:], 0xC15C15C1)
-			binary.BigEndian.PutUint32(body[4:], uint32(i))
+			binary.BigEndian.PutUint32(body[4:], uint32(seqBase+i))
 		}
 		out = append(out, item{p: p, kind: "unknown-id"})
 	}
@@ -155,10 +184,16 @@ type sessionCase struct {
 	ct, bt     int
 	big, heavy int
 	trickle    int // > 0: both fake peers read from their sockets in chunks of 1..trickle bytes
+	// sw != "": while the streams run a connection request to a second backend is started whose
+	// backend parks at a stage ("dial", "login", "join") and is then cancelled or completed;
+	// packets [swFrom, swTo) of each stream are sent while it is pending
+	sw           string
+	swFrom, swTo int
 }
 
 func (c sessionCase) desc() map[string]any {
-	return map[string]any{"session": c.s, "protocol": int(c.pv), "client_threshold": c.ct, "backend_threshold": c.bt, "big": c.big, "heavy": c.heavy, "peer_read_chunk": c.trickle}
+	return map[string]any{"session": c.s, "protocol": int(c.pv), "client_threshold": c.ct, "backend_threshold": c.bt, "big": c.big, "heavy": c.heavy, "peer_read_chunk": c.trickle,
+		"pending_connection_request": c.sw, "pending_from_packet": c.swFrom, "pending_to_packet": c.swTo}
 }
 
 // classify names the kind of difference between what was sent and what arrived (any
@@ -226,7 +261,7 @@ func classify(sent, got [][]byte) (kind string, at int, detail string) {
 func TestC15(t *testing.T) {
 	r := lib.Start(t, "C15")
 	defer r.Finish()
-	r.Rule("one case = one live session (protocol from {47,340,758,760,761,763,764,767,775}, client threshold and backend threshold drawn independently from {-1,0,64,256}; every 6th session 'heavy': both sides compressing, 48-400 KiB hardly compressible payloads, peers reading their sockets in small chunks) relaying 2 concurrent streams of pass-through packets: ids unknown to Gate in play (boundary-biased sizes) interleaved with hand-built packets of the KNOWN types the play handlers only observe or ignore and relay as received (backend->client: KeepAlive, legacy PlayerListItem, PlayerInfo Upsert/Remove, BossBar, BundleDelimiter, unregistered-channel and register plugin messages, HeaderAndFooter, PlayerChatCompletion, CustomReportDetails, title Times, SystemChat, LegacyChat; client->backend: ClientSettings) with ordinary and unusual-but-legal contents (zero UUIDs, empty names, 0 / many entries, unknown enum values, no actions); 4 (thorough: 8) sessions run at a time; evaluations = packets relayed and compared; distinct = distinct (direction, protocol, thresholds, packet kind, size class)")
+	r.Rule("one case = one live session (protocol from {47,340,758,760,761,763,764,767,775}, client threshold and backend threshold drawn independently from {-1,0,64,256}; every 6th session 'heavy': both sides compressing, 48-400 KiB hardly compressible payloads, peers reading their sockets in small chunks) relaying 2 concurrent streams of pass-through packets: ids unknown to Gate in play (boundary-biased sizes) interleaved with hand-built packets of the KNOWN types the play handlers only observe or ignore and relay as received (backend->client: KeepAlive, legacy PlayerListItem, PlayerInfo Upsert/Remove, BossBar, BundleDelimiter, unregistered-channel and register plugin messages, HeaderAndFooter, PlayerChatCompletion, CustomReportDetails, title Times, SystemChat, LegacyChat; client->backend: ClientSettings) with ordinary and unusual-but-legal contents (zero UUIDs, empty names, 0 / many entries, unknown enum values, no actions, 1-16 trailing bytes behind the body); every 6th session has a connection request to a second backend pending (parked at dial / login / before JoinGame) while a PRNG-chosen middle stretch of both streams is sent, then cancelled (streams go on over the same backend) or completed (streams go on over the new backend, judged there); 4 (thorough: 8) sessions run at a time; evaluations = packets relayed and compared; distinct = distinct (direction, protocol, thresholds, packet kind, size class)")
 	r.Assume("fake peers frame/deframe with the harness's own codec; known packets are built byte by byte by the harness's own writer; ids are looked up (unknown ids: chosen as unknown) through Gate's registry and hand-built known packets are pre-checked against Gate's decoder (workload selection only, rejected ones are counted)")
 	rng := r.Rng("cases")
 	sessions := r.N(72, 3000)
@@ -246,6 +281,17 @@ func TestC15(t *testing.T) {
 			c.ct, c.bt = ths[1+rng.Intn(3)], ths[1+rng.Intn(3)]
 			c.heavy = 24
 			c.trickle = []int{64, 512, 4096}[rng.Intn(3)]
+		}
+		if s%4 == 1 && c.heavy == 0 && c.big == 0 {
+			c.sw = []string{"dial-complete", "dial-cancel", "login-cancel", "join-complete"}[rng.Intn(4)]
+			if c.pv >= 764 && c.sw == "join-complete" {
+				// a 1.20.2+ client is taken through the configuration state: the proxy gives the old
+				// backend up as soon as the new one accepted the login, so with JoinGame parked the
+				// player is no longer in play on the old server - not a window the statement covers
+				c.sw = "dial-complete"
+			}
+			c.swFrom = perDir * (10 + rng.Intn(30)) / 100
+			c.swTo = c.swFrom + perDir*(20+rng.Intn(30))/100
 		}
 		cases[s] = c
 	}
@@ -272,6 +318,163 @@ func TestC15(t *testing.T) {
 	r.Set("sessions", sessions)
 }
 
+const markText = "C15-MARK-"
+
+// mark builds a marker packet: an unknown id followed by a text no stream payload contains.
+func mark(id int, text string) []byte { return append([]byte{byte(id)}, []byte(markText+text)...) }
+
+func isMark(p []byte) bool { return len(p) > 1 && bytes.HasPrefix(p[1:], []byte(markText)) }
+
+// collect returns the payloads a peer received in the play state with an id of the stream,
+// strictly between the markers after and before (nil: from the start / to the end), markers
+// excluded. In play with no switch going on the proxy has no packet of its own to send with
+// these ids; around a switch it has (tab list removals, the remembered client settings, ...),
+// which is why a switch is bracketed by markers and what lies between them is not judged here.
+func collect(log []*e2e.Rec, idset map[int]bool, after, before []byte) (got [][]byte) {
+	started := after == nil
+	for _, rc := range log {
+		if rc.State != states.PlayState {
+			continue
+		}
+		if !started {
+			started = bytes.Equal(rc.Payload, after)
+			continue
+		}
+		if before != nil && bytes.Equal(rc.Payload, before) {
+			break
+		}
+		if idset[rc.ID] && !isMark(rc.Payload) {
+			got = append(got, rc.Payload)
+		}
+	}
+	return got
+}
+
+// judge compares one segment of one direction. complete: a packet sent AFTER the segment on
+// the same path has been seen relayed (so nothing of the segment can still be on its way:
+// each leg of the proxy relays in order); without it a missing tail is only inconclusive.
+func judge(r *lib.Run, sc sessionCase, dir, segment string, items []item, got [][]byte, complete bool) bool {
+	desc := sc.desc()
+	sent := payloads(items)
+	what, at, detail := classify(sent, got)
+	if what != "" {
+		if !complete && what == "payloads-missing" && at == len(got) {
+			// nothing wrong observed except that the stream did not complete in time
+			r.Inconclusive(fmt.Sprintf("session %d %s %s: end marker not seen within the watchdog (%s)", sc.s, dir, segment, detail))
+			return false
+		}
+		sig := "relay-" + dir + ":" + what
+		affected := "unknown-id"
+		if at >= 0 && at < len(items) {
+			affected = items[at].kind
+		}
+		if affected != "unknown-id" {
+			sig += ":" + affected // e.g. ...:payloads-missing:known:PlayerListItem
+		}
+		w := map[string]any{"case": desc, "direction": dir, "segment": segment, "first_affected_packet": affected, "sent_head": digest(sent[:min(12, len(sent))]), "received_head": digest(got[:min(12, len(got))])}
+		if at >= 0 && at < len(items) {
+			w["first_affected_flavours"] = items[at].flavours
+			w["first_affected_sent_while"] = items[at].phase
+			lo, hi := max(0, at-2), min(len(sent), at+3)
+			w["sent_around"] = digest(sent[lo:hi])
+			if lo < len(got) {
+				w["received_around"] = digest(got[lo:min(len(got), hi)])
+			}
+			if len(items[at].p) <= 256 {
+				w["first_affected_payload_hex"] = hex.EncodeToString(items[at].p)
+			}
+			if items[at].phase == "connection-request-pending" {
+				sig += ":while-connection-request-pending"
+			}
+		}
+		r.Violation(sig, detail, w)
+		return false
+	}
+	for _, it := range items {
+		p := it.p
+		r.Count("relayed", 1)
+		if len(p) > 1<<19 {
+			r.Count("relayed_over_512KiB", 1)
+		}
+		cls := "tiny"
+		switch {
+		case len(p) > 1<<19:
+			cls = "huge"
+		case len(p) > 32<<10:
+			cls = "heavy"
+		case len(p) > 300:
+			cls = "large"
+		case len(p) > 64:
+			cls = "mid"
+		}
+		if it.kind != "unknown-id" {
+			r.Count("relayed_known_types", 1)
+			r.Count("relayed:"+dir+":"+it.kind, 1)
+			for _, f := range it.flavours {
+				r.Count("relayed_unusual:"+it.kind+":"+f, 1)
+				if f == "trailing-bytes" {
+					r.Count("relayed_known_with_trailing_bytes:"+dir, 1)
+				}
+			}
+		} else {
+			r.Count("relayed:"+dir+":unknown-id", 1)
+		}
+		if it.phase != "" {
+			r.Count("relayed_"+it.phase+":"+dir, 1)
+		}
+		r.Distinct(fmt.Sprintf("%s|%d|%d|%d|%s|%s|%s", dir, sc.pv, sc.ct, sc.bt, it.kind, cls, it.phase))
+	}
+	r.Eval(len(items))
+	return true
+}
+
+func idSet(ids []int, known []knownGen) map[int]bool {
+	m := map[int]bool{}
+	for _, id := range ids {
+		m[id] = true
+	}
+	for _, g := range known {
+		m[g.id] = true
+	}
+	return m
+}
+
+func sendAll(p *e2e.Peer, items []item, trailer ...[]byte) {
+	for _, it := range items {
+		_ = p.SendRaw(it.p)
+	}
+	for _, m := range trailer {
+		_ = p.SendRaw(m)
+	}
+}
+
+func sawPayload(p *e2e.Peer, m []byte) bool {
+	for _, rc := range p.Log() {
+		if bytes.Equal(rc.Payload, m) {
+			return true
+		}
+	}
+	return false
+}
+
+// awaitMarker waits for marker m at the receiving peer. A marker that did not arrive within w
+// is re-sent once (as m2) and awaited with a doubled watchdog: if the second one arrives the
+// first was lost (a relay fault the sequence comparison names); if neither does, the relay is
+// stalled in an otherwise idle in-memory system.
+func awaitMarker(recv *e2e.Peer, send *e2e.Peer, m, m2 []byte, w time.Duration) (seen, stalled bool) {
+	pred := func(rc *e2e.Rec) bool { return bytes.Equal(rc.Payload, m) || bytes.Equal(rc.Payload, m2) }
+	_, err := recv.WaitFor(pred, w)
+	if err == nil {
+		return true, false
+	}
+	if err != e2e.ErrTimeout {
+		return false, false // the stream ended
+	}
+	_ = send.SendRaw(m2)
+	_, err = recv.WaitFor(pred, 2*w)
+	return err == nil, err == e2e.ErrTimeout
+}
+
 func runSession(t *testing.T, r *lib.Run, sc sessionCase, perDir int) {
 	s, pv, ct, bt := sc.s, sc.pv, sc.ct, sc.bt
 	desc := sc.desc()
@@ -282,6 +485,38 @@ func runSession(t *testing.T, r *lib.Run, sc sessionCase, perDir int) {
 	}
 	b, _ := h.AddBackend("lobby", e2e.Always(e2e.Behavior{Mode: e2e.Accept, Threshold: bt}))
 	h.Cfg.Try = []string{"lobby"}
+
+	// the second backend of a switch session parks its connection at the scripted stage
+	release := make(chan struct{})
+	parked := make(chan struct{})
+	var parkOnce, releaseOnce sync.Once
+	doRelease := func() { releaseOnce.Do(func() { close(release) }) }
+	defer doRelease()
+	park := func(also <-chan struct{}) {
+		parkOnce.Do(func() { close(parked) })
+		select {
+		case <-release:
+		case <-also:
+		case <-time.After(4 * e2e.Watchdog):
+		}
+	}
+	var arena *e2e.Backend
+	stage := ""
+	if sc.sw != "" {
+		stage = strings.SplitN(sc.sw, "-", 2)[0]
+		beh := e2e.Behavior{Mode: e2e.Accept, Threshold: bt}
+		switch stage {
+		case "login":
+			beh.Mode = e2e.HangLogin
+		case "join":
+			beh.BeforeJoin = func(*e2e.BackendConn) { park(nil) }
+		}
+		arena, _ = h.AddBackend("arena", e2e.Always(beh))
+		if stage == "dial" {
+			arena.DialObserver = func(_ int, ctx context.Context, _ e2e.Behavior, _ int64) { park(ctx.Done()) }
+		}
+	}
+
 	c := h.NewClient(e2e.ClientOpts{Protocol: pv})
 	defer c.Close()
 	if res := c.Login("Relay", "example.com"); !res.Joined {
@@ -308,133 +543,217 @@ func runSession(t *testing.T, r *lib.Run, sc sessionCase, perDir int) {
 		t.Logf("session %d: hand-built %s not decodable by Gate (protocol %d), not sent: %v", s, kind, pv, err)
 	}
 	upKnown, downKnown := knownRelayed(proto.ServerBound, pv), knownRelayed(proto.ClientBound, pv)
-	up := genStream(r.Rng(fmt.Sprintf("up%d", s)), proto.ServerBound, pv, sIDs, upKnown, 15, perDir, []int{ct, bt}, sc.big, sc.heavy, rejected)
-	down := genStream(r.Rng(fmt.Sprintf("down%d", s)), proto.ClientBound, pv, cIDs, downKnown, 40, perDir, []int{ct, bt}, sc.big, sc.heavy, rejected)
-	// end markers
-	endUp := append([]byte{byte(sIDs[0])}, []byte("END-OF-UP-STREAM")...)
-	endDown := append([]byte{byte(cIDs[0])}, []byte("END-OF-DOWN-STREAM")...)
-	var wg sync.WaitGroup
-	wg.Add(2)
+	upSet, downSet := idSet(sIDs, upKnown), idSet(cIDs, downKnown)
+	upRng, downRng := r.Rng(fmt.Sprintf("up%d", s)), r.Rng(fmt.Sprintf("down%d", s))
+	gen := func(base, n int, phase string, big, heavy int) (up, down []item) {
+		up = genStream(upRng, proto.ServerBound, pv, sIDs, upKnown, 15, base, n, []int{ct, bt}, big, heavy, rejected)
+		down = genStream(downRng, proto.ClientBound, pv, cIDs, downKnown, 40, base, n, []int{ct, bt}, big, heavy, rejected)
+		for i := range up {
+			up[i].phase = phase
+		}
+		for i := range down {
+			down[i].phase = phase
+		}
+		return
+	}
+	endUp, endDown := mark(sIDs[0], "END-OF-UP-STREAM"), mark(cIDs[0], "END-OF-DOWN-STREAM")
+	both := func(f, g func()) {
+		var wg sync.WaitGroup
+		wg.Add(2)
+		go func() { defer wg.Done(); f() }()
+		go func() { defer wg.Done(); g() }()
+		wg.Wait()
+	}
+	// finish sends the last part (bracketed by start and end markers) over the connection the
+	// player is on then and waits for the end markers
+	finish := func(final *e2e.BackendConn, up, down []item) (okUp, okDown bool) {
+		both(func() { sendAll(c.Peer, up, endUp) }, func() { sendAll(final.Peer, down, endDown) })
+		var stUp, stDown bool
+		both(func() { _, stUp = awaitMarker(final.Peer, c.Peer, endUp, endUp, e2e.Watchdog) },
+			func() { _, stDown = awaitMarker(c.Peer, final.Peer, endDown, endDown, e2e.Watchdog) })
+		// a stalled relay is reported as such; otherwise the end marker arrived or the stream
+		// ended, and the sequence comparison decides
+		okUp, okDown = !stUp, !stDown
+		if stUp {
+			r.Violation("relay-client-to-backend:stalled", "nothing was relayed although two end markers were sent 20 s apart and the connection is open", desc)
+		}
+		if stDown {
+			r.Violation("relay-backend-to-client:stalled", "nothing was relayed although two end markers were sent 20 s apart and the connection is open", desc)
+		}
+		return
+	}
+
+	if sc.sw == "" {
+		up, down := gen(0, perDir, "", sc.big, sc.heavy)
+		okUp, okDown := finish(bc, up, down)
+		judge(r, sc, "client-to-backend", "whole stream", up, collect(bc.Log(), upSet, nil, endUp), okUp)
+		judge(r, sc, "backend-to-client", "whole stream", down, collect(c.Log(), downSet, nil, endDown), okDown)
+		if r.WantSample() {
+			r.Sample(map[string]any{"case": desc, "up_head": digest(payloads(up[:4])), "down_head": digest(payloads(down[:4]))})
+		}
+		return
+	}
+
+	// ---- a session with a connection request to another server pending for a stretch ----------
+	// part 1: plain play on lobby; part 2: sent while the request to arena is pending (the arena
+	// backend says it is parked, only this monitor releases it, and the proxy's API reports the
+	// player on lobby before and after); part 3: after the request was cancelled (still lobby)
+	// or completed (arena).
+	n1, n2 := sc.swFrom, sc.swTo-sc.swFrom
+	up1, down1 := gen(0, n1, "", 0, 0)
+	up2, down2 := gen(n1, n2, "connection-request-pending", 0, 0)
+	both(func() { sendAll(c.Peer, up1) }, func() { sendAll(bc.Peer, down1) })
+	pp, rs := h.P.PlayerByName("Relay"), h.P.Server("arena")
+	if pp == nil || rs == nil {
+		r.Inconclusive(fmt.Sprintf("session %d: player or server not found through the API", s))
+		return
+	}
+	ctx, cancel := context.WithTimeout(context.Background(), 4*e2e.Watchdog)
+	defer cancel()
+	done := make(chan string, 1)
 	go func() {
-		defer wg.Done()
-		for _, it := range up {
-			_ = c.SendRaw(it.p)
+		res, err := pp.CreateConnectionRequest(rs).Connect(ctx)
+		switch {
+		case err != nil:
+			done <- "error: " + err.Error()
+		case res == nil:
+			done <- "nil result"
+		default:
+			done <- fmt.Sprintf("status-%d", res.Status())
 		}
-		_ = c.SendRaw(endUp)
 	}()
-	go func() {
-		defer wg.Done()
-		for _, it := range down {
-			_ = bc.SendRaw(it.p)
+	arenaConn := func() *e2e.BackendConn {
+		if cs := arena.Conns(); len(cs) > 0 {
+			return cs[len(cs)-1]
 		}
-		_ = bc.SendRaw(endDown)
-	}()
-	wg.Wait()
-	_, errU := bc.WaitFor(func(rc *e2e.Rec) bool { return bytes.Equal(rc.Payload, endUp) }, e2e.Watchdog)
-	_, errD := c.WaitFor(func(rc *e2e.Rec) bool { return bytes.Equal(rc.Payload, endDown) }, e2e.Watchdog)
-	// a marker that did not arrive within the watchdog is re-sent once and awaited with a
-	// doubled watchdog: if the second one arrives the first was lost (a relay fault); if it
-	// does not either, the relay is stalled in an otherwise idle in-memory system
-	stalledUp, stalledDown := false, false
-	if errU == e2e.ErrTimeout {
-		_ = c.SendRaw(endUp)
-		_, e2 := bc.WaitFor(func(rc *e2e.Rec) bool { return bytes.Equal(rc.Payload, endUp) }, 2*e2e.Watchdog)
-		stalledUp = e2 == e2e.ErrTimeout
-		errU = nil
+		return nil
 	}
-	if errD == e2e.ErrTimeout {
-		_ = bc.SendRaw(endDown)
-		_, e2 := c.WaitFor(func(rc *e2e.Rec) bool { return bytes.Equal(rc.Payload, endDown) }, 2*e2e.Watchdog)
-		stalledDown = e2 == e2e.ErrTimeout
-		errD = nil
+	isParked := false
+	if stage == "login" {
+		for end := time.Now().Add(e2e.Watchdog); time.Now().Before(end) && !isParked; time.Sleep(300 * time.Microsecond) {
+			ac := arenaConn()
+			isParked = ac != nil && ac.Stamps().LoginAt != 0
+		}
+	} else {
+		select {
+		case <-parked:
+			isParked = true
+		case <-time.After(e2e.Watchdog):
+		}
 	}
-	if stalledUp {
-		r.Violation("relay-client-to-backend:stalled", "nothing was relayed although two end markers were sent 20 s apart and the connection is open", desc)
+	onLobby := func() bool {
+		p := h.P.PlayerByName("Relay")
+		if p == nil {
+			return false
+		}
+		cs := p.CurrentServer()
+		return cs != nil && cs.Server().ServerInfo().Name() == "lobby"
 	}
-	if stalledDown {
-		r.Violation("relay-backend-to-client:stalled", "nothing was relayed although two end markers were sent 20 s apart and the connection is open", desc)
+	pending := func() bool {
+		select {
+		case v := <-done: // the request has already returned
+			done <- v
+			if stage != "join" { // a parked JoinGame lets Connect return before the switch is over
+				return false
+			}
+		default:
+		}
+		if stage != "dial" {
+			if ac := arenaConn(); ac == nil || ac.Conn.PeerClosed() {
+				return false
+			}
+		}
+		return onLobby()
 	}
-	check := func(dir string, items []item, log []*e2e.Rec, ids []int, known []knownGen, end []byte, werr error) {
-		// what is compared: every packet received in the play state whose id is one of the ids
-		// the stream uses (unknown ids and the ids of the relayed known types) - in play with no
-		// switch going on the proxy has no packet of its own to send with these ids
-		idset := map[int]bool{}
-		for _, id := range ids {
-			idset[id] = true
-		}
-		for _, g := range known {
-			idset[g.id] = true
-		}
-		sent := payloads(items)
-		var got [][]byte
-		for _, rc := range log {
-			if rc.State == states.PlayState && idset[rc.ID] && !bytes.Equal(rc.Payload, end) {
-				got = append(got, rc.Payload)
-			}
-		}
-		what, at, detail := classify(sent, got)
-		if what != "" {
-			if werr == e2e.ErrTimeout && what == "payloads-missing" && at == len(got) {
-				// nothing wrong observed except that the stream did not complete in time
-				r.Inconclusive(fmt.Sprintf("session %d %s: end marker not seen within the watchdog (%s)", s, dir, detail))
-				return
-			}
-			sig := "relay-" + dir + ":" + what
-			affected := "unknown-id"
-			if at >= 0 && at < len(items) {
-				affected = items[at].kind
-			}
-			if affected != "unknown-id" {
-				sig += ":" + affected // e.g. ...:payloads-missing:known:PlayerListItem
-			}
-			w := map[string]any{"case": desc, "direction": dir, "first_affected_packet": affected, "sent_head": digest(sent[:min(12, len(sent))]), "received_head": digest(got[:min(12, len(got))])}
-			if at >= 0 && at < len(items) {
-				w["first_affected_flavours"] = items[at].flavours
-				lo, hi := max(0, at-2), min(len(sent), at+3)
-				w["sent_around"] = digest(sent[lo:hi])
-				if lo < len(got) {
-					w["received_around"] = digest(got[lo:min(len(got), hi)])
-				}
-				if len(items[at].p) <= 256 {
-					w["first_affected_payload_hex"] = hex.EncodeToString(items[at].p)
-				}
-			}
-			r.Violation(sig, detail, w)
-			return
-		}
-		for _, it := range items {
-			p := it.p
-			r.Count("relayed", 1)
-			if len(p) > 1<<19 {
-				r.Count("relayed_over_512KiB", 1)
-			}
-			cls := "tiny"
-			switch {
-			case len(p) > 1<<19:
-				cls = "huge"
-			case len(p) > 32<<10:
-				cls = "heavy"
-			case len(p) > 300:
-				cls = "large"
-			case len(p) > 64:
-				cls = "mid"
-			}
-			if it.kind != "unknown-id" {
-				r.Count("relayed_known_types", 1)
-				r.Count("relayed:"+dir+":"+it.kind, 1)
-				for _, f := range it.flavours {
-					r.Count("relayed_unusual:"+it.kind+":"+f, 1)
-				}
-			} else {
-				r.Count("relayed:"+dir+":unknown-id", 1)
-			}
-			r.Distinct(fmt.Sprintf("%s|%d|%d|%d|%s|%s", dir, pv, ct, bt, it.kind, cls))
-		}
-		r.Eval(len(items))
+	if !isParked || !pending() {
+		r.Inconclusive(fmt.Sprintf("session %d: the connection request to arena did not reach the scripted stall (%s)", s, sc.sw))
+		return
 	}
-	check("client-to-backend", up, bc.Log(), sIDs, upKnown, endUp, errU)
-	check("backend-to-client", down, c.Log(), cIDs, downKnown, endDown, errD)
+	m2Up, m2Down := mark(sIDs[0], "END-OF-PENDING-PART-UP"), mark(cIDs[0], "END-OF-PENDING-PART-DOWN")
+	m2UpB, m2DownB := mark(sIDs[0], "END-OF-PENDING-PART-UP-AGAIN"), mark(cIDs[0], "END-OF-PENDING-PART-DOWN-AGAIN")
+	both(func() { sendAll(c.Peer, up2, m2Up) }, func() { sendAll(bc.Peer, down2, m2Down) })
+	var seenUp, stUp, seenDown, stDown bool
+	both(func() { _, stUp = awaitMarker(bc.Peer, c.Peer, m2Up, m2UpB, e2e.Watchdog/2) },
+		func() { _, stDown = awaitMarker(c.Peer, bc.Peer, m2Down, m2DownB, e2e.Watchdog/2) })
+	seenUp, seenDown = !stUp, !stDown
+	windowHeld := pending() // still pending after everything of part 2 was sent (and, if seen, relayed)
+	if windowHeld {
+		r.Count("switch_sessions_with_stream_part_sent_while_request_pending:"+sc.sw, 1)
+		if stUp {
+			r.Violation("relay-client-to-backend:stalled:while-connection-request-pending", "nothing was relayed to the player's server although two markers were sent 10 s apart, the player is in play on it and the request to another server is merely pending", desc)
+		}
+		if stDown {
+			r.Violation("relay-backend-to-client:stalled:while-connection-request-pending", "nothing was relayed to the client although two markers were sent 10 s apart, the player is in play on the sending server and the request to another server is merely pending", desc)
+		}
+	} else {
+		r.Inconclusive(fmt.Sprintf("session %d: the connection request (%s) did not stay pending while the middle part of the streams was sent", s, sc.sw))
+	}
+
+	// let the request end
+	complete := strings.HasSuffix(sc.sw, "complete")
+	if complete {
+		doRelease()
+	} else {
+		cancel()
+		doRelease()
+	}
+	var res string
+	select {
+	case res = <-done:
+	case <-time.After(e2e.Watchdog):
+		res = "did not return"
+	}
+	final := bc
+	settled := false
+	if complete {
+		if h.AwaitCurrentServer("Relay", "arena", e2e.Watchdog) && c.AwaitJoinCount(2, e2e.Watchdog) {
+			if ac := arenaConn(); ac != nil && ac.WaitJoined(e2e.Watchdog) {
+				final, settled = ac, true
+			}
+		}
+	} else {
+		settled = h.AwaitCurrentServer("Relay", "lobby", e2e.Watchdog) && !bc.Conn.PeerClosed()
+		if stage == "login" && settled {
+			// the abandoned connection is dropped asynchronously; nothing to wait for on lobby's side
+			time.Sleep(2 * time.Millisecond)
+		}
+	}
+	if !settled {
+		r.Inconclusive(fmt.Sprintf("session %d: the connection request (%s) did not end as scripted: %s", s, sc.sw, res))
+	}
+	up12, down12 := append(append([]item{}, up1...), up2...), append(append([]item{}, down1...), down2...)
+	if !windowHeld {
+		return // parts 1+2 were not sent inside the window the statement covers: nothing to judge
+	}
+	if !settled {
+		// only the parts before the end of the request can be judged
+		judge(r, sc, "client-to-backend", "before and while the request was pending", up12, collect(bc.Log(), upSet, nil, m2Up), seenUp)
+		judge(r, sc, "backend-to-client", "before and while the request was pending", down12, collect(c.Log(), downSet, nil, m2Down), seenDown)
+		return
+	}
+	phase3 := "after-cancelled-connection-request"
+	if complete {
+		phase3 = "after-completed-switch"
+	}
+	up3, down3 := gen(sc.swTo, perDir-sc.swTo, phase3, 0, 0)
+	s3Up, s3Down := mark(sIDs[0], "START-OF-LAST-PART-UP"), mark(cIDs[0], "START-OF-LAST-PART-DOWN")
+	_ = c.SendRaw(s3Up)
+	_ = final.SendRaw(s3Down)
+	okUp, okDown := finish(final, up3, down3)
+	r.Count("switch_sessions_judged:"+sc.sw, 1)
+	if complete {
+		// two paths: lobby until the switch, arena after it; what the proxy itself sends around
+		// the switch lies between the markers and is not judged
+		judge(r, sc, "client-to-backend", "on the old server, before and while the request was pending", up12, collect(bc.Log(), upSet, nil, m2Up), seenUp || sawPayload(final.Peer, s3Up) || okUp)
+		judge(r, sc, "client-to-backend", "on the new server", up3, collect(final.Log(), upSet, s3Up, endUp), okUp)
+		judge(r, sc, "backend-to-client", "from the old server, before and while the request was pending", down12, collect(c.Log(), downSet, nil, m2Down), seenDown || sawPayload(c.Peer, s3Down))
+		judge(r, sc, "backend-to-client", "from the new server", down3, collect(c.Log(), downSet, s3Down, endDown), okDown)
+	} else {
+		// one path throughout: the whole stream in one piece
+		judge(r, sc, "client-to-backend", "whole stream (request cancelled in the middle)", append(up12, up3...), collect(bc.Log(), upSet, nil, endUp), okUp)
+		judge(r, sc, "backend-to-client", "whole stream (request cancelled in the middle)", append(down12, down3...), collect(c.Log(), downSet, nil, endDown), okDown)
+	}
 	if r.WantSample() {
-		r.Sample(map[string]any{"case": desc, "up_head": digest(payloads(up[:4])), "down_head": digest(payloads(down[:4]))})
+		r.Sample(map[string]any{"case": desc, "request_result": res, "up_pending_head": digest(payloads(up2[:min(4, len(up2))])), "down_pending_head": digest(payloads(down2[:min(4, len(down2))]))})
 	}
 }
